@@ -117,13 +117,37 @@ class ASpec(Spec):
                 out.append(e)
         return out
 
+    # frame depth of the statement being evaluated; only maintained by DepthEngine (run_block(depth_aware=True)), 0 otherwise
+    _depth = 0
+
     def v(self, expr, st):
-        return self.value(expr, st, 0)
+        return self.value(expr, st, self._depth)
 
 
-def run_block(stmts, spec, bindings=None, init_env=None):
+class DepthEngine(Engine):
+    """Engine that tells the spec the frame depth of the statement / condition it is evaluating (``spec._depth``), so that
+    ``ASpec.v`` resolves local names inside inlined helpers in the helper's frame (labels and atoms do not receive the depth)."""
+
+    def stmt(self, node, states, depth):
+        old = getattr(self.spec, "_depth", 0)
+        self.spec._depth = depth
+        try:
+            return Engine.stmt(self, node, states, depth)
+        finally:
+            self.spec._depth = old
+
+    def cond(self, expr, states, depth):
+        old = getattr(self.spec, "_depth", 0)
+        self.spec._depth = depth
+        try:
+            return Engine.cond(self, expr, states, depth)
+        finally:
+            self.spec._depth = old
+
+
+def run_block(stmts, spec, bindings=None, init_env=None, depth_aware=False):
     """Terminal (trace, how, state) triples of a statement list (treated as a function body)."""
-    eng = Engine(spec)
+    eng = DepthEngine(spec) if depth_aware else Engine(spec)
     fn = SimpleNamespace(body=list(stmts))
     o = eng.run(fn, State((), dict(init_env or {})), bindings)
     out = []
@@ -188,6 +212,67 @@ def truthiness_atom(expr, chain: str):
             if isinstance(op, ast.Eq):
                 return False
     return None
+
+
+def isinstance_names(expr):
+    """Like ``isinstance_of`` but also understands ``isinstance(x, A | B)`` and nested tuples: (subject_expr, [class last names]) or None."""
+    if isinstance(expr, ast.Call) and isinstance(expr.func, ast.Name) and expr.func.id == "isinstance" and len(expr.args) == 2 and not expr.keywords:
+        def names(t):
+            if isinstance(t, ast.Tuple):
+                return [n for e in t.elts for n in names(e)]
+            if isinstance(t, ast.BinOp) and isinstance(t.op, ast.BitOr):
+                return names(t.left) + names(t.right)
+            n = last_attr(t)
+            return [n] if n else ["?"]
+        return expr.args[0], names(expr.args[1])
+    return None
+
+
+def truthiness_of(expr, pred):
+    """Value-based variant of ``truthiness_atom``: polarity of a leaf testing truthiness / None-ness / emptiness of the object for which
+    ``pred(node)`` holds (`x`, `bool(x)`, `len(x)`, `x is not None`, `x != None`, `len(x) > 0`, `len(x) != 0`, `len(x) >= 1`,
+    `0 < len(x)` -> True; `x is None`, `x == None`, `len(x) == 0`, `len(x) < 1`, `0 == len(x)` -> False; anything else None)."""
+    def is_len(e):
+        return isinstance(e, ast.Call) and isinstance(e.func, ast.Name) and e.func.id == "len" and len(e.args) == 1 and not e.keywords and pred(e.args[0])
+
+    if pred(expr):
+        return True
+    if isinstance(expr, ast.Call) and isinstance(expr.func, ast.Name) and expr.func.id == "bool" and len(expr.args) == 1 and not expr.keywords:
+        return truthiness_of(expr.args[0], pred)
+    if is_len(expr):
+        return True
+    if isinstance(expr, ast.Compare) and len(expr.ops) == 1:
+        l, r, op = expr.left, expr.comparators[0], expr.ops[0]
+        if pred(l) and isinstance(r, ast.Constant) and r.value is None:
+            if isinstance(op, (ast.IsNot, ast.NotEq)):
+                return True
+            if isinstance(op, (ast.Is, ast.Eq)):
+                return False
+        if isinstance(l, ast.Constant) and is_len(r):  # constant on the left: mirror the comparison
+            mirror = {ast.Lt: ast.Gt, ast.Gt: ast.Lt, ast.LtE: ast.GtE, ast.GtE: ast.LtE, ast.Eq: ast.Eq, ast.NotEq: ast.NotEq}
+            m = mirror.get(type(op))
+            if m is None:
+                return None
+            l, r, op = r, l, m()
+        if is_len(l) and isinstance(r, ast.Constant) and type(r.value) is int:
+            if r.value == 0:
+                if isinstance(op, (ast.Gt, ast.NotEq)):
+                    return True
+                if isinstance(op, (ast.Eq, ast.LtE)):
+                    return False
+            if r.value == 1:
+                if isinstance(op, ast.GtE):
+                    return True
+                if isinstance(op, ast.Lt):
+                    return False
+    return None
+
+
+def method_on(call, is_subject) -> str:
+    """'append' for ``<subject>.append(...)`` where ``is_subject(receiver_expr)`` holds, '' otherwise."""
+    if isinstance(call, ast.Call) and isinstance(call.func, ast.Attribute) and is_subject(call.func.value):
+        return call.func.attr
+    return ""
 
 
 def compare_pair(expr, ops):
